@@ -161,10 +161,12 @@ Proof.
 Qed.
 
 (* ------------------------------------------------------------------ den_list: any sufficient fuel *)
-Lemma split_dl_pre c l l1 dd : split_dl c l = (l1, dd) -> lpre l1 = lpre l.
+Lemma split_dl_some c l d : split_dl c l = Some d ->
+  c = c_semi /\ (exists a, lpre l = [a]) /\ ldesc l = Some d.
 Proof.
-  unfold split_dl. destruct (N.eqb c c_semi); [|intros H; inversion H; reflexivity].
-  destruct (lpre l) as [|a [|b q]] eqn:Ep; destruct (ldesc l); intros H; inversion H; subst; try exact Ep; reflexivity.
+  unfold split_dl. destruct (N.eqb c c_semi) eqn:E; [|discriminate]. apply N.eqb_eq in E.
+  destruct (lpre l) as [|a [|b q]]; destruct (ldesc l) as [d'|]; try discriminate.
+  intros H; inversion H; subst. split; [reflexivity|]. split; [exists a; reflexivity|reflexivity].
 Qed.
 
 Lemma head_char_cons l c p : lpre l = c :: p -> head_char l = c.
@@ -195,15 +197,16 @@ Proof.
       * apply le_n.
     + assert (Hc : head_char l <> 0%N) by (apply N.eqb_neq; exact E0).
       destruct (take_sub (head_char l) r) as [sub rest] eqn:Et.
-      destruct (split_dl (head_char l) l) as [l1 dd] eqn:Es.
       destruct (take_sub_spec _ _ _ _ Et) as [Hr Hne].
-      assert (Hl1 : lpre l1 = lpre l) by (eapply split_dl_pre; eassumption).
       assert (Hl : lpre l <> []) by (apply (head_char_ne l (head_char l) Hc); apply N.eqb_refl).
-      assert (Hm : m (map strip1 (l1 :: sub)) + length (l1 :: sub) = m (l1 :: sub))
-        by (apply m_strip_ne; constructor; [congruence|assumption]).
+      assert (Hm : m (map strip1 (l :: sub)) + length (l :: sub) = m (l :: sub))
+        by (apply m_strip_ne; constructor; assumption).
+      assert (Hms : m (map strip1 sub) <= m sub) by apply m_strip_le.
       assert (Hmr : m r = m sub + m rest) by (rewrite Hr; apply m_app).
-      rewrite m_cons in Hm. rewrite Hl1 in Hm. cbn [length] in Hm.
-      f_equal; [f_equal; apply IH; lia|]. f_equal. apply IH; lia.
+      rewrite m_cons in Hm. cbn [length] in Hm.
+      destruct (split_dl (head_char l) l) as [d|].
+      * f_equal. f_equal; [f_equal; f_equal; apply IH; lia|apply IH; lia].
+      * f_equal; [f_equal; apply IH; lia|apply IH; lia].
 Qed.
 
 (* the denotation with its canonical fuel *)
@@ -240,22 +243,29 @@ Proof.
   - apply le_n.
 Qed.
 
-Lemma D_dl l r c p sub rest l1 dd : lpre l = c :: p -> c = c_semi \/ c = c_colon ->
-  take_sub c r = (sub, rest) -> split_dl c l = (l1, dd) ->
-  DL (l :: r) = Node (if N.eqb c c_semi then LDt else LDd) (DL (map strip1 (l1 :: sub))) :: dd ++ DL rest.
+Lemma D_dl l r c p sub rest : lpre l = c :: p -> c = c_semi \/ c = c_colon ->
+  take_sub c r = (sub, rest) ->
+  DL (l :: r) =
+    match split_dl c l with
+    | Some d => Node LDt (ltxt l) :: Node LDd (d ++ DL (map strip1 sub)) :: DL rest
+    | None => Node (if N.eqb c c_semi then LDt else LDd) (DL (map strip1 (l :: sub))) :: DL rest
+    end.
 Proof.
-  intros Hp Hc Ht Hs. unfold DL at 1. rewrite m_cons. cbn [plus den_list].
+  intros Hp Hc Ht. unfold DL at 1. rewrite m_cons. cbn [plus den_list].
   rewrite (head_char_cons _ _ _ Hp).
   assert (E0 : N.eqb c 0 = false) by (destruct Hc; subst; reflexivity). rewrite E0.
   assert (Esh : N.eqb c c_star || N.eqb c c_hash = false) by (destruct Hc; subst; reflexivity). rewrite Esh.
-  rewrite Ht, Hs.
+  rewrite Ht.
   destruct (take_sub_spec _ _ _ _ Ht) as [Hr Hne].
-  assert (Hl1 : lpre l1 = lpre l) by (eapply split_dl_pre; eassumption).
-  assert (Hm : m (map strip1 (l1 :: sub)) + length (l1 :: sub) = m (l1 :: sub))
-    by (apply m_strip_ne; constructor; [congruence|assumption]).
+  assert (Hl : lpre l <> []) by (rewrite Hp; discriminate).
+  assert (Hm : m (map strip1 (l :: sub)) + length (l :: sub) = m (l :: sub))
+    by (apply m_strip_ne; constructor; assumption).
+  assert (Hms : m (map strip1 sub) <= m sub) by apply m_strip_le.
   assert (Hmr : m r = m sub + m rest) by (rewrite Hr; apply m_app).
-  rewrite m_cons in Hm. rewrite Hl1 in Hm. cbn [length] in Hm.
-  f_equal; [f_equal; apply den_list_D; lia|]. f_equal. apply den_list_D; lia.
+  rewrite m_cons in Hm. cbn [length] in Hm.
+  destruct (split_dl c l) as [d|].
+  - f_equal. f_equal; [f_equal; f_equal; apply den_list_D; lia|apply den_list_D; lia].
+  - f_equal; [f_equal; apply den_list_D; lia|apply den_list_D; lia].
 Qed.
 
 (* ------------------------------------------------------------------ validity of prefixes *)
@@ -332,7 +342,7 @@ Lemma collect_items_S f prefix children dd ls : collect_items (S f) prefix child
              else None) with
       | Some (l0, ich') =>
         match splitdl l0 with
-        | Some (l0', d) => LOk (children ++ [OLine l0' :: ich'], Some d, rest, true)
+        | Some (l0', d) => LOk (children ++ [[OLine l0']], Some (Node LDd (d ++ render ich')), rest, true)
         | None => if is_dl prefix then LOk (children ++ [ich], None, rest, true)
                   else collect_items f prefix (children ++ [ich]) None rest
         end
@@ -376,15 +386,20 @@ Definition Rl (F : nat) : Prop := forall c ls children dd, c = c_star \/ c = c_h
   exists C, collect_items F c children dd ls = LOk (children ++ C, dd, snd (items_of DL (length ls) c ls), false)
             /\ map li_of C = fst (items_of DL (length ls) c ls).
 
-Definition Qd (F : nat) : Prop := forall c l p r children sub rest l1 ddl, c = c_semi \/ c = c_colon -> lpre l = c :: p ->
-  valid_lines (l :: r) -> 3 * m (l :: r) + 2 <= F -> take_sub c r = (sub, rest) -> split_dl c l = (l1, ddl) ->
-  exists I dd', outer_while F c children None (l :: r) = LOk (children ++ [I], dd', rest)
-                /\ render I = DL (map strip1 (l1 :: sub)) /\ dd_list dd' = ddl.
+(* for ; and : — the item I and the description node, by cases on split_dl *)
+Definition dl_post (c : N) (l : line) (sub : list line) (I : list otok) (dd' : option tree) : Prop :=
+  match split_dl c l with
+  | Some d => render I = ltxt l /\ dd' = Some (Node LDd (d ++ DL (map strip1 sub)))
+  | None => render I = DL (map strip1 (l :: sub)) /\ dd' = None
+  end.
 
-Definition Rd (F : nat) : Prop := forall c l p r children sub rest l1 ddl, c = c_semi \/ c = c_colon -> lpre l = c :: p ->
-  valid_lines (l :: r) -> 3 * m (l :: r) + 1 <= F -> take_sub c r = (sub, rest) -> split_dl c l = (l1, ddl) ->
-  exists I dd', collect_items F c children None (l :: r) = LOk (children ++ [I], dd', rest, true)
-                /\ render I = DL (map strip1 (l1 :: sub)) /\ dd_list dd' = ddl.
+Definition Qd (F : nat) : Prop := forall c l p r children sub rest, c = c_semi \/ c = c_colon -> lpre l = c :: p ->
+  valid_lines (l :: r) -> 3 * m (l :: r) + 2 <= F -> take_sub c r = (sub, rest) ->
+  exists I dd', outer_while F c children None (l :: r) = LOk (children ++ [I], dd', rest) /\ dl_post c l sub I dd'.
+
+Definition Rd (F : nat) : Prop := forall c l p r children sub rest, c = c_semi \/ c = c_colon -> lpre l = c :: p ->
+  valid_lines (l :: r) -> 3 * m (l :: r) + 1 <= F -> take_sub c r = (sub, rest) ->
+  exists I dd', collect_items F c children None (l :: r) = LOk (children ++ [I], dd', rest, true) /\ dl_post c l sub I dd'.
 
 Lemma same_prefix_cons c p l : lpre l = c :: p -> same_prefix c l = true.
 Proof. intros H. unfold same_prefix. rewrite H. apply N.eqb_refl. Qed.
@@ -436,7 +451,7 @@ Qed.
 
 Lemma Rd_step f : Pa f -> Rd (S f).
 Proof.
-  intros HP c l p r children sub rest l1 ddl Hc Hp Hv Hf Ht Hs.
+  intros HP c l p r children sub rest Hc Hp Hv Hf Ht.
   assert (Hl : lpre l <> []) by (rewrite Hp; discriminate).
   rewrite collect_items_S. rewrite (same_prefix_cons c p l Hp).
   rewrite inner_while_take_sub, Ht. cbn [fst snd app].
@@ -445,37 +460,35 @@ Proof.
   rewrite HT. cbn [lbind app].
   change (map strip1 (l :: sub)) with (strip1 l :: map strip1 sub) in HsT.
   unfold shape in HsT. rewrite lpre_strip1, Hp in HsT. cbn [tl] in HsT.
-  unfold split_dl in Hs. rewrite Hp in Hs.
+  unfold dl_post, split_dl. rewrite Hp.
   destruct Hc as [Hc|Hc]; subst c.
   - (* ; *)
-    rewrite N.eqb_refl in Hs. rewrite N.eqb_refl.
+    rewrite !N.eqb_refl.
     destruct p as [|x q].
     + destruct HsT as (T' & -> & HrT').
       unfold splitdl. change (ldesc (strip1 l)) with (ldesc l).
-      destruct (ldesc l) as [d|] eqn:Ed; inversion Hs; subst l1 ddl.
-      * exists (OLine (lpre (strip1 l), ltxt (strip1 l), None) :: T'), (Some (Node LDd d)).
-        split; [reflexivity|]. split; [|reflexivity].
-        change (map strip1 (([c_semi], ltxt l, None) :: sub))
-          with ((@nil N, ltxt l, @None (list tree)) :: map strip1 sub).
-        rewrite D_nopre by reflexivity.
-        rewrite render_cons, HrT'. reflexivity.
+      destruct (ldesc l) as [d|] eqn:Ed.
+      * exists [OLine (lpre (strip1 l), ltxt (strip1 l), None)], (Some (Node LDd (d ++ render T'))).
+        split; [reflexivity|]. split; [|rewrite HrT'; reflexivity].
+        unfold render. cbn [flat_map render_tok]. unfold line_text. cbn [ltxt ldesc strip1 fst snd].
+        rewrite !app_nil_r. reflexivity.
       * change (is_dl c_semi) with true. cbv iota.
         exists (OLine (strip1 l) :: T'), None. split; [reflexivity|]. split; [exact HrT|reflexivity].
     + destruct HsT as (t & T' & ->). change (is_dl c_semi) with true. cbv iota.
-      destruct (ldesc l); inversion Hs; subst l1 ddl;
-        (exists (ONode t :: T'), None; split; [reflexivity|]; split; [exact HrT|reflexivity]).
+      exists (ONode t :: T'), None. split; [reflexivity|].
+      destruct (ldesc l); (split; [exact HrT|reflexivity]).
   - (* : *)
-    change (N.eqb c_colon c_semi) with false in Hs. change (N.eqb c_colon c_semi) with false. cbv iota.
-    change (is_dl c_colon) with true. cbv iota. inversion Hs; subst l1 ddl.
+    change (N.eqb c_colon c_semi) with false. cbv iota.
+    change (is_dl c_colon) with true. cbv iota.
     exists T, None. split; [reflexivity|]. split; [exact HrT|reflexivity].
 Qed.
 
 Lemma Qd_step f : Rd f -> Qd (S f).
 Proof.
-  intros HR c l p r children sub rest l1 ddl Hc Hp Hv Hf Ht Hs.
+  intros HR c l p r children sub rest Hc Hp Hv Hf Ht.
   rewrite outer_while_S. rewrite (same_prefix_cons c p l Hp).
-  destruct (HR c l p r children sub rest l1 ddl Hc Hp Hv) as (I & dd' & HC & HrI & Hdd); [lia|assumption|assumption|].
-  rewrite HC. cbn [lbind]. exists I, dd'. split; [reflexivity|]. split; assumption.
+  destruct (HR c l p r children sub rest Hc Hp Hv) as (I & dd' & HC & Hpost); [lia|assumption|].
+  rewrite HC. cbn [lbind]. exists I, dd'. split; [reflexivity|exact Hpost].
 Qed.
 
 Lemma P_step_list f c k p l r done :
@@ -512,8 +525,7 @@ Proof.
   intros HP HQ Hc Hk Hmk Hp Hv Hf.
   rewrite analyze_loop_S, Hp, Hk.
   destruct (take_sub c r) as [sub rest] eqn:Et.
-  destruct (split_dl c l) as [l1 ddl] eqn:Es.
-  destruct (HQ c l p r [] sub rest l1 ddl Hc Hp Hv) as (I & dd' & HO & HrI & Hdd); [lia|assumption|assumption|].
+  destruct (HQ c l p r [] sub rest Hc Hp Hv) as (I & dd' & HO & Hpost); [lia|assumption|].
   rewrite HO. cbn [lbind app].
   assert (Hl : lpre l <> []) by (rewrite Hp; discriminate).
   destruct (item_facts c l r sub rest Hl Hv Et) as (Hm1 & Hm2 & Hlen & Hv1 & Hv2 & Hm3).
@@ -521,9 +533,12 @@ Proof.
   destruct (HP rest (done ++ X) Hv2) as (T' & HT' & HrT' & _); [lia|].
   exists (X ++ T'). split; [|split].
   - rewrite HT', <- app_assoc. reflexivity.
-  - rewrite (D_dl l r c p sub rest l1 ddl Hp Hc Et Es). rewrite render_app, HrT'.
-    subst X. rewrite render_cons. cbn [render_tok app]. rewrite Hmk, HrI. f_equal. f_equal.
-    rewrite <- Hdd. destruct dd'; reflexivity.
+  - rewrite (D_dl l r c p sub rest Hp Hc Et). rewrite render_app, HrT'.
+    subst X. rewrite render_cons. cbn [render_tok app]. rewrite Hmk.
+    unfold dl_post in Hpost. destruct (split_dl c l) as [d|] eqn:Es.
+    + destruct Hpost as [HrI ->]. destruct (split_dl_some _ _ _ Es) as [-> _].
+      rewrite N.eqb_refl, HrI. reflexivity.
+    + destruct Hpost as [HrI ->]. rewrite HrI. reflexivity.
   - unfold shape. rewrite Hp. subst X. cbn [app]. eauto.
 Qed.
 
@@ -625,188 +640,110 @@ Proof. cbn [flat_map]. apply leaves_l_app. Qed.
 Lemma LT_strip a : LT (map strip1 a) = LT a.
 Proof. induction a as [|x a IH]; [reflexivity|]. cbn [map]. rewrite !LT_cons, IH. reflexivity. Qed.
 
-Definition has_head (c : N) (l : line) : Prop := exists p, lpre l = c :: p.
-
-Lemma take_sub_heads c ls a b : take_sub c ls = (a, b) -> Forall (has_head c) a.
-Proof.
-  revert a b; induction ls as [|l r IH]; intros a b H; cbn [take_sub] in H.
-  - inversion H; subst. constructor.
-  - destruct (N.eqb (head_char l) c && long_prefix l) eqn:E.
-    + destruct (take_sub c r) as [a' b'] eqn:Et. inversion H; subst.
-      constructor; [|apply (IH _ _ eq_refl)].
-      apply andb_true_iff in E as [E1 E2]. apply N.eqb_eq in E1. unfold head_char in E1. unfold long_prefix in E2.
-      unfold has_head. destruct (lpre l) as [|x q]; [discriminate|]. subst x. eauto.
-    + inversion H; subst. constructor.
-Qed.
-
-Lemma dl_swallows_strip c a b : has_head c a -> has_head c b -> dl_swallows (strip1 a) (strip1 b) -> dl_swallows a b.
-Proof.
-  intros [pa Ha] [pb Hb] [Hd (p & x & q & H1 & H2)].
-  rewrite lpre_strip1, Ha in H1. rewrite lpre_strip1, Hb in H2. cbn [tl] in H1, H2.
-  split; [exact Hd|]. exists (c :: p), x, q. subst pa pb. split; assumption.
-Qed.
-
-Lemma nds_strip c a : Forall (has_head c) a -> no_dl_swallow a -> no_dl_swallow (map strip1 a).
-Proof.
-  induction 1 as [|x a Hx Ha IH]; intros Hn; [exact I|].
-  cbn [no_dl_swallow] in Hn. destruct Hn as [Hn1 Hn2].
-  change (map strip1 (x :: a)) with (strip1 x :: map strip1 a). cbn [no_dl_swallow]. split; [|apply IH; exact Hn2].
-  destruct a as [|y a']; [exact I|]. cbn [map].
-  intros Hs. apply Hn1. inversion Ha; subst. eapply dl_swallows_strip; eassumption.
-Qed.
-
-Lemma nds_app a b : no_dl_swallow (a ++ b) -> no_dl_swallow a /\ no_dl_swallow b.
-Proof.
-  induction a as [|x a IH]; intros H; [split; [exact I|exact H]|].
-  change ((x :: a) ++ b) with (x :: (a ++ b)) in H. cbn [no_dl_swallow] in H. destruct H as [H1 H2].
-  destruct (IH H2) as [Ha Hb]. split; [|exact Hb]. cbn [no_dl_swallow]. split; [|exact Ha].
-  destruct a as [|y a']; [exact I|]. exact H1.
-Qed.
-
-Lemma nds_tail l r : no_dl_swallow (l :: r) -> no_dl_swallow r.
-Proof. intros H. cbn [no_dl_swallow] in H. apply H. Qed.
-
-Lemma head_char_has_head l c : c <> 0%N -> N.eqb (head_char l) c = true -> has_head c l.
-Proof.
-  intros Hc H. apply N.eqb_eq in H. unfold head_char in H. unfold has_head.
-  destruct (lpre l) as [|x q]; [congruence|]. subst x. eauto.
-Qed.
-
 (* an item keeps its text in order when the recursive denotation does *)
 Lemma item_text_in_order rec f c l r sub rest :
-  (forall x, m x <= f -> no_dl_swallow x -> leaves_l (rec x) = LT x) ->
-  c <> 0%N -> N.eqb (head_char l) c = true -> m (l :: r) <= S f -> no_dl_swallow (l :: r) ->
+  (forall x, m x <= f -> leaves_l (rec x) = LT x) ->
+  c <> 0%N -> N.eqb (head_char l) c = true -> m (l :: r) <= S f ->
   take_sub c r = (sub, rest) ->
-  leaves_l (rec (map strip1 (l :: sub))) = LT (l :: sub) /\ r = sub ++ rest /\ no_dl_swallow rest /\ m rest <= f.
+  leaves_l (rec (map strip1 (l :: sub))) = LT (l :: sub) /\ leaves_l (rec (map strip1 sub)) = LT sub /\
+  r = sub ++ rest /\ m rest <= f.
 Proof.
-  intros Hrec Hc Hh Hm Hn Ht.
+  intros Hrec Hc Hh Hm Ht.
   destruct (take_sub_spec _ _ _ _ Ht) as [Hr Hne].
   assert (Hl : lpre l <> []) by (eapply head_char_ne; eassumption).
   assert (Hm1 : m (map strip1 (l :: sub)) + length (l :: sub) = m (l :: sub))
     by (apply m_strip_ne; constructor; assumption).
   assert (Hm2 : m (l :: r) = m (l :: sub) + m rest).
   { rewrite Hr. change (l :: sub ++ rest) with ((l :: sub) ++ rest). apply m_app. }
-  assert (Hn' : no_dl_swallow ((l :: sub) ++ rest)) by (cbn [app]; rewrite <- Hr; exact Hn).
-  apply nds_app in Hn'. destruct Hn' as [Hn1 Hn2]. cbn [length] in Hm1.
-  split; [|split; [exact Hr|split; [exact Hn2|]]].
-  - rewrite Hrec.
-    + apply LT_strip.
-    + lia.
-    + apply (nds_strip c); [|exact Hn1]. constructor; [apply head_char_has_head; assumption|].
-      eapply take_sub_heads; eassumption.
-  - assert (2 <= m (l :: sub)) by (rewrite m_cons; destruct (lpre l); [congruence|cbn [length]; lia]). lia.
+  assert (Hms : m (map strip1 sub) <= m sub) by apply m_strip_le.
+  assert (Hm3 : m (l :: sub) = S (length (lpre l)) + m sub) by apply m_cons.
+  assert (2 <= m (l :: sub)) by (rewrite m_cons; destruct (lpre l); [congruence|cbn [length]; lia]).
+  cbn [length] in Hm1.
+  split; [|split; [|split; [exact Hr|lia]]].
+  - rewrite Hrec by lia. apply LT_strip.
+  - rewrite Hrec by lia. apply LT_strip.
 Qed.
 
 Lemma items_text_in_order rec f c : c <> 0%N ->
-  (forall x, m x <= f -> no_dl_swallow x -> leaves_l (rec x) = LT x) ->
-  forall n ls items rest, m ls <= S f -> no_dl_swallow ls -> items_of rec n c ls = (items, rest) ->
-  exists p, ls = p ++ rest /\ leaves_l items = LT p /\ no_dl_swallow rest /\ (items <> [] -> m rest <= f).
+  (forall x, m x <= f -> leaves_l (rec x) = LT x) ->
+  forall n ls items rest, m ls <= S f -> items_of rec n c ls = (items, rest) ->
+  exists p, ls = p ++ rest /\ leaves_l items = LT p /\ (items <> [] -> m rest <= f).
 Proof.
-  intros Hc Hrec. induction n as [|n IH]; intros ls items rest Hm Hn H.
-  - cbn [items_of] in H. inversion H; subst. exists []. split; [reflexivity|]. split; [reflexivity|]. split; [exact Hn|congruence].
+  intros Hc Hrec. induction n as [|n IH]; intros ls items rest Hm H.
+  - cbn [items_of] in H. inversion H; subst. exists []. split; [reflexivity|]. split; [reflexivity|congruence].
   - destruct ls as [|l r]; cbn [items_of] in H.
-    + inversion H; subst. exists []. split; [reflexivity|]. split; [reflexivity|]. split; [exact I|congruence].
+    + inversion H; subst. exists []. split; [reflexivity|]. split; [reflexivity|congruence].
     + destruct (N.eqb (head_char l) c) eqn:Eh.
       * destruct (take_sub c r) as [sub rest0] eqn:Et.
         destruct (items_of rec n c rest0) as [its rest'] eqn:Ei. inversion H; subst items rest'. clear H.
-        destruct (item_text_in_order rec f c l r sub rest0 Hrec Hc Eh Hm Hn Et) as (H1 & H2 & H3 & H4).
-        destruct (IH rest0 its rest) as (p & Hp & Hlp & Hnr & Hmr); [lia|exact H3|exact Ei|].
-        exists ((l :: sub) ++ p). split; [|split; [|split]].
+        destruct (item_text_in_order rec f c l r sub rest0 Hrec Hc Eh Hm Et) as (H1 & _ & H2 & H4).
+        destruct (IH rest0 its rest) as (p & Hp & Hlp & Hmr); [lia|exact Ei|].
+        exists ((l :: sub) ++ p). split; [|split].
         -- rewrite <- app_assoc, <- Hp. cbn [app]. rewrite <- H2. reflexivity.
         -- change (strip1 l :: map strip1 sub) with (map strip1 (l :: sub)).
            rewrite leaves_l_node, H1, Hlp, LT_app. reflexivity.
-        -- exact Hnr.
         -- intros _. assert (m rest0 = m p + m rest) by (rewrite Hp; apply m_app). lia.
-      * inversion H; subst. exists []. split; [reflexivity|]. split; [reflexivity|]. split; [exact Hn|congruence].
+      * inversion H; subst. exists []. split; [reflexivity|]. split; [reflexivity|congruence].
 Qed.
 
-Lemma den_list_text_in_order_fuel : forall f ls, m ls <= f -> no_dl_swallow ls ->
-  leaves_l (den_list f ls) = LT ls.
+Lemma den_list_text_in_order_fuel : forall f ls, m ls <= f -> leaves_l (den_list f ls) = LT ls.
 Proof.
-  induction f as [|f IH]; intros ls Hm Hn.
+  induction f as [|f IH]; intros ls Hm.
   - assert (ls = []) by (apply m_zero; lia). subst. reflexivity.
   - destruct ls as [|l r]; [reflexivity|]. cbn [den_list].
     destruct (N.eqb (head_char l) 0) eqn:E0.
-    { rewrite leaves_l_app, LT_cons. f_equal. rewrite m_cons in Hm. apply IH; [lia|]. eapply nds_tail; eassumption. }
+    { rewrite leaves_l_app, LT_cons. f_equal. rewrite m_cons in Hm. apply IH; lia. }
     assert (Hc : head_char l <> 0%N) by (apply N.eqb_neq; exact E0).
     destruct (N.eqb (head_char l) c_star || N.eqb (head_char l) c_hash) eqn:Esh.
     + destruct (items_of (den_list f) (length (l :: r)) (head_char l) (l :: r)) as [items rest] eqn:Ei.
-      destruct (items_text_in_order (den_list f) f (head_char l) Hc IH _ _ _ _ Hm Hn Ei) as (p & Hp & Hlp & Hnr & Hmr).
+      destruct (items_text_in_order (den_list f) f (head_char l) Hc IH _ _ _ _ Hm Ei) as (p & Hp & Hlp & Hmr).
       rewrite leaves_l_node, Hlp. rewrite Hp. rewrite LT_app. f_equal.
-      apply IH; [|exact Hnr]. apply Hmr.
+      apply IH. apply Hmr.
       cbn [length items_of] in Ei. rewrite N.eqb_refl in Ei.
       destruct (take_sub (head_char l) r) as [sub rest0]. destruct (items_of (den_list f) (length r) (head_char l) rest0).
       inversion Ei; subst. discriminate.
     + destruct (take_sub (head_char l) r) as [sub rest] eqn:Et.
-      destruct (split_dl (head_char l) l) as [l1 dd] eqn:Es.
-      destruct (item_text_in_order (den_list f) f (head_char l) l r sub rest IH Hc (N.eqb_refl _) Hm Hn Et)
-        as (H1 & H2 & H3 & H4).
-      rewrite leaves_l_node, !leaves_l_app. rewrite (IH rest H4 H3).
-      rewrite H2. change (l :: sub ++ rest) with ((l :: sub) ++ rest). rewrite LT_app, <- H1.
-      unfold split_dl in Es. destruct (N.eqb (head_char l) c_semi) eqn:Esemi.
-      * apply N.eqb_eq in Esemi.
-        destruct (lpre l) as [|a [|b q]] eqn:Ep; destruct (ldesc l) as [d|] eqn:Ed; inversion Es; subst l1 dd;
-          try (cbn [leaves_l flat_map app]; reflexivity).
-        (* the split case: `; term : desc` — by hypothesis it swallows nothing *)
-        assert (Ha : a = c_semi) by (unfold head_char in Esemi; rewrite Ep in Esemi; exact Esemi). subst a.
-        assert (Hsub : sub = []).
-        { destruct sub as [|s sub']; [reflexivity|]. exfalso.
-          cbn [app] in H2. subst r. cbn [take_sub] in Et.
-          destruct (N.eqb (head_char s) (head_char l) && long_prefix s) eqn:Ec; [|inversion Et].
-          apply andb_true_iff in Ec as [Ec1 Ec2]. apply N.eqb_eq in Ec1. rewrite Esemi in Ec1.
-          cbn [no_dl_swallow] in Hn. destruct Hn as [Hn _]. apply Hn.
-          split; [rewrite Ed; discriminate|].
-          unfold head_char in Ec1. unfold long_prefix in Ec2.
-          destruct (lpre s) as [|y [|x ps']] eqn:Eps; try discriminate. subst y.
-          exists [], x, ps'. cbn [app]. split; [exact Ep|first [exact Eps|reflexivity]]. }
-        rewrite H1. subst sub. cbn [map]. rewrite IH.
-        -- rewrite !LT_cons. cbn [flat_map]. unfold line_text. rewrite Ed. cbn [ltxt ldesc strip1 fst snd].
-           rewrite !leaves_l_app, leaves_l_node. change (leaves_l []) with (@nil (N * bool * bool)).
-           rewrite !app_nil_r, <- !app_assoc. reflexivity.
-        -- rewrite m_cons in Hm. rewrite Ep in Hm. cbn [length] in Hm. rewrite m_cons, m_nil. cbn [strip1 lpre fst snd tl length]. lia.
-        -- cbn [no_dl_swallow]. auto.
-      * inversion Es; subst l1 dd. cbn [leaves_l flat_map app]. reflexivity.
+      destruct (item_text_in_order (den_list f) f (head_char l) l r sub rest IH Hc (N.eqb_refl _) Hm Et)
+        as (H1 & H1' & H2 & H4).
+      rewrite H2. change (l :: sub ++ rest) with ((l :: sub) ++ rest). rewrite LT_app.
+      destruct (split_dl (head_char l) l) as [d|] eqn:Es.
+      * (* `; term : desc` [+ swallowed lines]: term, then description text, then the swallowed lines *)
+        destruct (split_dl_some _ _ _ Es) as (_ & _ & Ed).
+        rewrite !leaves_l_node, leaves_l_app, H1', (IH rest H4), LT_cons.
+        unfold line_text. rewrite Ed, leaves_l_app, <- !app_assoc. reflexivity.
+      * rewrite leaves_l_node, H1, (IH rest H4). reflexivity.
 Qed.
 
-(* THE THEOREM (text): the denoted list trees keep all the text of the lines, in source order — unless a one-line
-   definition item `p; term : desc` is directly followed by a line whose prefix extends `p;` (see dl_swallows). *)
-Lemma den_list_text_in_order ls : no_dl_swallow ls ->
+(* THE THEOREM (text): the denoted list trees keep all the text of the lines, in source order (unconditionally since
+   fix 9ee1990: the lines swallowed by a one-line definition item follow its description). *)
+Lemma den_list_text_in_order ls :
   leaves_l (den_list (line_fuel ls) ls) = leaves_l (flat_map line_text ls).
-Proof. intros Hn. apply den_list_text_in_order_fuel; [apply line_fuel_ge|exact Hn]. Qed.
+Proof. apply den_list_text_in_order_fuel. apply line_fuel_ge. Qed.
 
 (* ... and so does the model of the code *)
-Lemma analyze_text_in_order ls : valid_lines ls -> no_dl_swallow ls ->
+Lemma analyze_text_in_order ls : valid_lines ls ->
   exists ts, analyze_model (analyze_fuel ls) ls = LOk ts /\ leaves_l ts = leaves_l (flat_map line_text ls).
 Proof.
-  intros Hv Hn. exists (den_list (line_fuel ls) ls). split; [apply analyze_den_list; exact Hv|].
-  apply den_list_text_in_order; exact Hn.
+  intros Hv. exists (den_list (line_fuel ls) ls). split; [apply analyze_den_list; exact Hv|].
+  apply den_list_text_in_order.
 Qed.
 
-(* the exception is real:  `; 1 : 2` followed by `;* 3`  gives  dt[1, ul[li[3]]], dd[2] — the swallowed sub-list sits in the
-   term, before the description (core.py:538 splitdl cuts only item.children[0]; the other children stay in the term) *)
+(* `; 1 : 2` followed by `;* 3`: the swallowed sub-list follows the description text inside the description node
+   (core.py:539-545; before fix 9ee1990 it stayed in the term, in front of the description) *)
 Definition swallow_lines : list line := [([c_semi], wd 1, Some (wd 2)); ([c_semi; c_star], wd 3, None)].
 
-Lemma den_list_text_in_order_refuted :
-  valid_lines swallow_lines /\ ~ no_dl_swallow swallow_lines /\
+Lemma swallow_example :
+  valid_lines swallow_lines /\
   analyze_model (analyze_fuel swallow_lines) swallow_lines =
-    LOk [Node LDt (wd 1 ++ [Node LUl [Node LLi (wd 3)]]); Node LDd (wd 2)] /\
-  den_list (line_fuel swallow_lines) swallow_lines = [Node LDt (wd 1 ++ [Node LUl [Node LLi (wd 3)]]); Node LDd (wd 2)] /\
-  leaves_l (den_list (line_fuel swallow_lines) swallow_lines) = [(1, false, false); (3, false, false); (2, false, false)]%N /\
-  leaves_l (flat_map line_text swallow_lines) = [(1, false, false); (2, false, false); (3, false, false)]%N.
+    LOk [Node LDt (wd 1); Node LDd (wd 2 ++ [Node LUl [Node LLi (wd 3)]])] /\
+  den_list (line_fuel swallow_lines) swallow_lines = [Node LDt (wd 1); Node LDd (wd 2 ++ [Node LUl [Node LLi (wd 3)]])] /\
+  leaves_l (den_list (line_fuel swallow_lines) swallow_lines) = [(1, false, false); (2, false, false); (3, false, false)]%N.
 Proof.
-  split; [|split; [|split; [|split; [|split]]]]; try (vm_compute; reflexivity).
-  - unfold valid_lines, swallow_lines.
-    repeat (apply Forall_cons; [repeat (apply Forall_cons; [unfold valid_char; auto|]); apply Forall_nil|]). apply Forall_nil.
-  - intros [H _]. apply H. split; [discriminate|]. exists [], c_star, []. split; reflexivity.
+  split; [|split; [|split]]; try (vm_compute; reflexivity).
+  unfold valid_lines, swallow_lines.
+  repeat (apply Forall_cons; [repeat (apply Forall_cons; [unfold valid_char; auto|]); apply Forall_nil|]). apply Forall_nil.
 Qed.
 
-(* the hypothesis of the text theorem is satisfiable on a list with definition items *)
-Lemma text_in_order_example : no_dl_swallow ex_lines /\
+Lemma text_in_order_example :
   leaves_l (den_list (line_fuel ex_lines) ex_lines) = map (fun w => (w, false, false)) [1; 2; 3; 4; 5; 6; 7; 8; 9]%N.
-Proof.
-  split; [|vm_compute; reflexivity].
-  unfold ex_lines. cbn [no_dl_swallow].
-  repeat (split; [intros [Hd (p & x & q & H1 & H2)]; try (apply Hd; reflexivity);
-                  destruct p as [|a [|b p]]; cbv in H1, H2; discriminate|]).
-  split; exact I.
-Qed.
+Proof. vm_compute; reflexivity. Qed.
